@@ -306,6 +306,20 @@ func (s *SymDense) CopySym(a Symmetric) int {
 		if amat.Uplo != blas.Upper {
 			panic(badSymTriangle)
 		}
+		if amat.Stride != s.mat.Stride {
+			// The row order chosen below is only
+			// safe for equal strides.
+			s.checkOverlap(generalFromSymmetric(amat))
+		}
+		if offset(s.mat.Data[:1], amat.Data[:1]) < 0 {
+			// The source starts before the receiver: copy the
+			// rows from last to first so that rows they share
+			// are read before they are overwritten.
+			for i := n - 1; i >= 0; i-- {
+				copy(s.mat.Data[i*s.mat.Stride+i:i*s.mat.Stride+n], amat.Data[i*amat.Stride+i:i*amat.Stride+n])
+			}
+			break
+		}
 		for i := 0; i < n; i++ {
 			copy(s.mat.Data[i*s.mat.Stride+i:i*s.mat.Stride+n], amat.Data[i*amat.Stride+i:i*amat.Stride+n])
 		}
